@@ -108,7 +108,7 @@ def run(rep, tier):
                         "rule": "distinct (class, start, end, min, max, is_extensible) with a specification language"})
     rep.extra["translator_crosscheck"] = xc
     # argument validation of the template constructor, for ALL integers and every other argument kind (VCs)
-    vcrun.run_functions(rep, ["pregex.meta.essentials.__Decimal.__init__"], tier)
+    vcrun.run_functions(rep, ["pregex.meta.essentials." + c + ".__init__" for c in ("__Decimal", "Decimal", "PositiveDecimal", "NegativeDecimal", "UnsignedDecimal")], tier)
     rep.trusted += ["R3, R4, R6, R7", "rx2smt translator (cross-checked against CPython each run)", "z3 regex theory and the "
                     "derivative-product procedure (must agree)", "specs/numerals.py"]
     rep.assumptions += ["PositiveDecimal and Decimal(include_sign=True): their sign rules are not documented precisely enough to "
